@@ -317,6 +317,78 @@ pub fn digests_main(rest: &[String]) -> i32 {
             && sha(&[&t.round.to_le_bytes(), &t.high_qc.round.to_le_bytes()]) == t.digest();
         w.write(&json!({"t":"digest","kind":"layout","what":"spec layout","match":lay}));
     }
+    // The universe of Digests.tla instantiated with real messages: abstract digest/key values 0..4 become 32-byte values of which 0 is the
+    // all-zero digest (the hash of QC::genesis()) and 1, 2 are the key bytes of two authorities -- so that a field can coincide with a
+    // neighbouring field of another kind, as in the model where keys and digests share one domain.  Every two distinct messages of the
+    // universe (blocks, votes, timeouts) must have distinct digests.
+    {
+        let val = |i: usize| -> Digest {
+            match i {
+                0 => Digest::default(),
+                1 => Digest(g.rig.keys[0].0 .0),
+                2 => Digest(g.rig.keys[1].0 .0),
+                _ => dg("universe", i as u64),
+            }
+        };
+        let nv = 5usize;
+        let mut payloads: Vec<Vec<usize>> = vec![vec![]];
+        for a in 0..nv {
+            payloads.push(vec![a]);
+            for b in 0..nv {
+                payloads.push(vec![a, b]);
+            }
+        }
+        let mut all: Vec<(String, Digest)> = Vec::new();
+        for author in 0..2usize {
+            for round in 0..2u64 {
+                for pl in &payloads {
+                    for parent in 0..nv {
+                        // parent value 0 with QC round 0 and no votes IS QC::genesis()
+                        let qc = QC { hash: val(parent), round: 0, votes: Vec::new() };
+                        let b = Block {
+                            qc,
+                            tc: None,
+                            author: g.rig.keys[author].0,
+                            round,
+                            payload: pl.iter().map(|x| val(*x)).collect(),
+                            signature: crypto::Signature::default(),
+                        };
+                        all.push((format!("block(author={},round={},payload={:?},parent={})", author, round, pl, parent), b.digest()));
+                    }
+                }
+            }
+        }
+        for h in 0..nv {
+            for round in 0..2u64 {
+                let v = Vote { hash: val(h), round, author: g.rig.keys[0].0, signature: crypto::Signature::default() };
+                all.push((format!("vote(hash={},round={})", h, round), v.digest()));
+            }
+        }
+        for round in 0..2u64 {
+            for hqr in 0..2u64 {
+                let t = Timeout {
+                    high_qc: QC { hash: Digest::default(), round: hqr, votes: Vec::new() },
+                    round,
+                    author: g.rig.keys[0].0,
+                    signature: crypto::Signature::default(),
+                };
+                all.push((format!("timeout(round={},hqr={})", round, hqr), t.digest()));
+            }
+        }
+        let mut seen: std::collections::HashMap<Digest, String> = std::collections::HashMap::new();
+        let mut collisions: Vec<Value> = Vec::new();
+        for (what, d) in &all {
+            if let Some(prev) = seen.get(d) {
+                if collisions.len() < 5 {
+                    collisions.push(json!([prev, what]));
+                }
+            } else {
+                seen.insert(d.clone(), what.clone());
+            }
+        }
+        n += all.len();
+        w.write(&json!({"t":"digest","kind":"universe","what":"Digests.tla universe instantiated","messages":all.len(),"distinct":seen.len(),"collisions":collisions}));
+    }
     let _ = Vote::verify;
     let _ = Timeout::verify;
     w.write(&json!({"t":"end"}));
